@@ -11,7 +11,7 @@ use smallvec::SmallVec;
 
 use crate::{
     CowStr, Entry, EntryConfig, EntryWriter, MetricFlags, MetricValue, Observation, Unit,
-    ValidationError, Value, ValueWriter,
+    ValidationError, Value, ValueWriter, entry::SampleGroupElement,
 };
 
 /// Adds a set of dimensions to a [Value] or [Entry] as (class, instance) pairs.
@@ -355,6 +355,10 @@ impl<V: MetricValue, const N: usize> MetricValue for WithDimensions<V, N> {
 impl<E: Entry, const N: usize> Entry for WithDimensions<E, N> {
     fn write<'a>(&'a self, writer: &mut impl EntryWriter<'a>) {
         self.value.write(&mut self.entry_writer_wrapper(writer))
+    }
+
+    fn sample_group(&self) -> impl Iterator<Item = SampleGroupElement> {
+        self.value.sample_group()
     }
 }
 
